@@ -71,6 +71,25 @@ def handle_tmod(c):
         out.append([int(ev[0][5:]) if ev else 0, str(seq)])
     return out
 
+def apply_genome_case(path, spec):
+    """rewrite the genome FASTA with lower-case (soft-masked) stretches: spec = {'all': bool, 'masks': {chrom: [[s,e],..]}}"""
+    if not spec:
+        return
+    recs = read_fasta(path)
+    with open(path, 'w') as f:
+        for h, s in recs:
+            name = h.split()[0]
+            if spec.get('all'):
+                s = s.lower()
+            else:
+                s = list(s)
+                for a, b in spec.get('masks', {}).get(name, []):
+                    s[a:b] = [x.lower() for x in s[a:b]]
+                s = ''.join(s)
+            f.write('>%s\n' % h)
+            for i in range(0, len(s), 60):
+                f.write(s[i:i + 60] + '\n')
+
 def handle(c):
     if c.get('kind') == 'tmod':
         return handle_tmod(c)
@@ -79,6 +98,7 @@ def handle(c):
     os.makedirs(d, exist_ok=True)
     try:
         g, a, p = G.write_world(c['world'], d)
+        apply_genome_case(g, c.get('genome_case'))
         o = c['opts']
         argv = ['callAltTranslation', '-g', g, '-a', a, '-p', p, '-o', os.path.join(d, 'out.fasta'),
                 '-c', o['rule'], '-m', str(o['k']), '-w', repr(o['min_mw']), '-l', str(o['min_len']),
